@@ -1058,11 +1058,11 @@ func (r *Runtime) regexpproto_stdSplitter(call FunctionCall) Value {
 	}
 
 	for _, result := range results {
-		if result.indexes[0] == result.indexes[1] {
-			// FIXME Ugh, this is a hack
-			if result.indexes[0] == 0 || result.indexes[0] == targetLength {
-				continue
-			}
+		// A match that ends where the previous one ended (an empty match adjacent to it, or at the very beginning) is
+		// skipped by the split algorithm, as is one at the end of the string. Go's regexp never reports the former,
+		// the backtracking engine does.
+		if result.indexes[1] == lastIndex || result.indexes[0] >= targetLength {
+			continue
 		}
 
 		if lastIndex != result.indexes[0] {
